@@ -808,7 +808,9 @@ class Model:
             return mymemo[normalized_arg]
         else:
             result = self.equations[equation](normalized_arg)
-            mymemo[normalized_arg] = result
+            # the per-equation simulation threads may compute the same key concurrently:
+            # the value stored first is the one every caller gets (matters for random functions)
+            result = mymemo.setdefault(normalized_arg, result)
 
         return result
 
